@@ -71,12 +71,23 @@ def cells(tier, rng):
     for a, (bk, bt, _, d) in itertools.product(keys, CLASSES):
         if a in ("V", "Z", "S"):
             out.append(("tchk:%s:%s" % (a, bk), "(op_%s %s %s ist)" % (a, "eine" if d == "einer" else "ein", bt)))
-    if tier == "quick":
-        # all unary, cast, slice, type-check cells; a seeded third of the big binary/ternary tables
-        small = [c for c in out if c[0].split(":")[0] in ("un", "cast", "tchk")]
-        rest = [c for c in out if c not in small]
-        rng.shuffle(rest)
-        out = small + rest[:len(rest) // 3]
+    # operands that are themselves lowered to several basic blocks (bounds checks, short circuits, nested conditionals)
+    zf = ["op_Z", "(op_LZ an der Stelle 1)", "(op_Z, falls op_W, ansonsten oq_Z)"]
+    tf = ["op_T", "(op_LT an der Stelle 1)", "(op_T verkettet mit oq_T)", "(op_T, falls oq_W, ansonsten oq_T)"]
+    wf = ["op_W", "(op_W und oq_W)", "(op_LW an der Stelle 1)", "((op_LZ an der Stelle 1) gleich 1 ist)", "(op_W, falls oq_W, ansonsten op_W)"]
+    n = 0
+    for forms in (zf, tf):
+        for l, m, r in itertools.product(forms, wf, forms):
+            n += 1
+            out.append(("ctl:falls:%d" % n, "(%s, falls %s, ansonsten %s)" % (l, m, r)))
+    for op, word in (("and", "und"), ("or", "oder")):
+        for l, r in itertools.product(wf, wf):
+            n += 1
+            out.append(("ctl:%s:%d" % (op, n), "(%s %s %s)" % (l, word, r)))
+    for l, r in itertools.product(zf, zf):
+        n += 1
+        out.append(("ctl:idx:%d" % n, "(op_LZ an der Stelle (%s plus %s))" % (l, r)))
+        out.append(("ctl:cmp:%d" % n, "(%s kleiner als %s ist)" % (l, r)))
     return out
 
 
@@ -176,14 +187,14 @@ def run(tier):
         for cname, mk in contexts(R):
             items.append((k, cname, R, mk(e, n)))
     if tier == "quick":
-        # every cell boxed + one seed-chosen context each, all contexts for a seeded 15 %
+        # every cell boxed + two seed-chosen contexts each; all contexts for numeric cells and a seeded 20 % of the others
         byk = {}
         for it in items:
             byk.setdefault(it[0], []).append(it)
         items = []
         for k, its in byk.items():
-            full = rng.random() < 0.15
-            items += its if full else [its[0]] + ([rng.choice(its[1:])] if len(its) > 1 else [])
+            full = its[0][2] in ("Zahl", "Kommazahl", "Byte", "Nummer") or rng.random() < 0.2
+            items += its if full else [its[0]] + rng.sample(its[1:], min(2, len(its) - 1))
     root = vlib.subdir("c02")
     counter = [0]
 
@@ -197,7 +208,7 @@ def run(tier):
         shutil.rmtree(d, ignore_errors=True)
         return r, src
     results = {}
-    pending = [items[i:i + 30] for i in range(0, len(items), 30)]
+    pending = [items[i:i + 40] for i in range(0, len(items), 40)]
     rounds = 0
     nprog = 0
     while pending and rounds < 8:
@@ -245,6 +256,6 @@ def run(tier):
                 dict(cell=k, ctx=c, result_type=it[2], lines=it[3], stage=stage, detail=r["detail"], source=src))
     ck.sample(dict(cell=accepted[0][0], expr=accepted[0][1], checker_type=accepted[0][2]))
     ck.sample(recs[len(recs) // 2])
-    ck.cov["rule"] = "cells: every unary/binary/ternary/cast/type-check operator x tuples over 20 operand type classes (quick: a seeded third of the binary/ternary tables); accepted cells x value contexts (boxing into Variable, initialiser, assignment, value argument, return, condition, list element, numeric coercions, print); each (cell, context) is one pipeline trace"
+    ck.cov["rule"] = "cells: every unary/binary/ternary/cast/type-check operator x tuples over 20 operand type classes (plus composite operands spanning several basic blocks); accepted cells x value contexts (boxing into Variable, initialiser, assignment, value argument, return, condition, list element, numeric coercions, print); each (cell, context) is one pipeline trace"
     ck.assumptions += ["the checker's own result type is used to build the contexts (the property is about the lowering matching the type the checker assigned)"]
     return ck.finish(exhaustive=(tier == "thorough"))
